@@ -1,5 +1,67 @@
-import PdsVerif.Model.Stft
+/-
+  C01 — chunked streaming equals whole-signal computation, for every chunking (STFT computer).
+
+  Model: `PdsVerif/Model/Stft.lean` (mirrors `compute_chunk` / `finalize` / `compute_full` /
+  `frame_by_frame_calculation` of `ShortTimeFourierTransformFrameComputer`).
+  The theorems quantify over every configuration with `1 ≤ frame_shift ≤ frame_length`
+  (`WF`), every sample type, every signal and every way of cutting it into chunks (empty chunks
+  included) — no bound on lengths or on the number of chunks.
+  This file holds only the property theorems; helper lemmas live in `PdsVerif/Lemmas/Stft*.lean`.
+-/
+import PdsVerif.Lemmas.StftStream
 namespace PdsVerif.C01
-open PdsVerif.Model.Stft
-theorem placeholder : (1:Nat) = 1 := rfl
+open PdsVerif.Model.Stft PdsVerif.StftArith PdsVerif.StftCanon PdsVerif.StftStream
+
+variable {α : Type} [Inhabited α]
+
+/-- **C01 (STFT), frames.** For every chunking of every signal: concatenating `compute_chunk` over
+the chunks followed by `finalize()` hands `_compute_frame` exactly the frames `compute_full` does. -/
+theorem stft_stream_eq_full (c : Cfg) (w : WF c) (chunks : List (List α)) :
+    stream c chunks = full c chunks.flatten := by
+  unfold stream
+  rw [← canon_nil c w, streamFrom_canon c w chunks [] false, full_eq c w]
+  simp only [List.length_nil, List.nil_append, emitted_zero c w, Nat.sub_zero]
+
+/-- **C01 (STFT), features.** Whatever `_compute_frame` computes from a frame (`g`: window, DFT,
+filter bank, log — any function of the frame), the streamed feature matrix equals
+`compute_full`'s: same number of rows, same rows. -/
+theorem stft_features_stream_eq_full {β : Type} (g : List α → β) (c : Cfg) (w : WF c)
+    (chunks : List (List α)) :
+    (stream c chunks).map g = (full c chunks.flatten).map g := by
+  rw [stft_stream_eq_full c w]
+
+/-- **C01, `frame_by_frame_calculation`.** Same frames as `compute_full` for every `chunk_size ≥ 1`. -/
+theorem stft_fbf_eq_full (c : Cfg) (w : WF c) (x : List α) (k : Nat) (hk : 0 < k) :
+    fbf c x k = full c x := by
+  unfold fbf
+  rw [stft_stream_eq_full c w, splitEvery_flatten k hk]
+
+/-- streaming state after any chunks is a function of the samples seen so far only -/
+theorem stft_state_canonical (c : Cfg) (w : WF c) (xs ys : List α) (st : Bool) :
+    (chunk c (canon c xs st) ys).1 = canon c (xs ++ ys) true := by
+  rw [chunk_canon c w]
+
+/-- every frame handed to `_compute_frame` by `compute_full` has exactly `frame_length` samples
+(the obligation Python slicing would otherwise hide) -/
+theorem stft_full_frames_length (c : Cfg) (w : WF c) (x : List α) :
+    ∀ fr ∈ full c x, fr.length = c.L := by
+  rw [full_eq c w]
+  intro fr h
+  simp only [framesFrom, frameAt, List.mem_map] at h
+  obtain ⟨k, _, rfl⟩ := h
+  simp
+
+/-- number of frames: `(N + S/2) / S`, none for `N < L/2 + 1` -/
+theorem stft_full_count (c : Cfg) (w : WF c) (x : List α) :
+    (full c x).length = if x.length < c.L / 2 + 1 then 0 else (x.length + c.S / 2) / c.S := by
+  rw [full_eq c w]; simp [framesFrom, numFull]
+
+/-! non-vacuity: `WF` is met by ordinary configurations, and the statement is about non-trivial runs -/
+example : WF { L := 4, S := 2, centered := true, kaldi := false } := ⟨by decide, by decide⟩
+example : WF { L := 5, S := 5, centered := false, kaldi := false } := ⟨by decide, by decide⟩
+example : stream { L := 4, S := 2, centered := true, kaldi := true } [[1, 2], [], [3], [4, 5, 6, 7]]
+    = [[1, 1, 2, 3], [2, 3, 4, 5], [4, 5, 6, 7], [6, 7, 7, 6]] := by decide
+example : full { L := 4, S := 2, centered := true, kaldi := true } [1, 2, 3, 4, 5, 6, 7]
+    = [[1, 1, 2, 3], [2, 3, 4, 5], [4, 5, 6, 7], [6, 7, 7, 6]] := by decide
+
 end PdsVerif.C01
